@@ -1,5 +1,6 @@
 //! Correspondence / oracle harness for arc-swap (real crate, `--cfg arc_swap_verif`).
 mod conc;
+mod cache_mode;
 mod kinds;
 mod serde_mode;
 mod prog;
@@ -220,6 +221,13 @@ fn main() {
             let seed: u64 = get("--seed").and_then(|s| s.parse().ok()).unwrap_or(1);
             let count: usize = get("--count").and_then(|s| s.parse().ok()).unwrap_or(200);
             for l in serde_mode::run(seed, count) {
+                println!("{}", l);
+            }
+        }
+        "cache" => {
+            let seed: u64 = get("--seed").and_then(|s| s.parse().ok()).unwrap_or(1);
+            let count: usize = get("--count").and_then(|s| s.parse().ok()).unwrap_or(200);
+            for l in cache_mode::run(seed, count) {
                 println!("{}", l);
             }
         }
